@@ -54,13 +54,17 @@ def observe(container, ids, cap):
     while cur is not None and len(back) < cap:
         back.append(cur)
         cur = cur.previous
+    # two iterations at once (nested loops, zip(c, c), c == c): each must see the whole chain -- like a list
+    nested = -1
+    if len(fwd) < cap:
+        nested = sum(1 for _a in itertools.islice(iter(container), cap) for _b in itertools.islice(iter(container), cap))
     links = [[ident(e.previous), ident(e.next)] for e in fwd]
     flags = [[e.is_first, e.is_last] for e in fwd]
     n = len(container) if len(fwd) < cap else -1
     if n0 is not None and n != -1 and n0 != n:
         n = [n0, n]   # two answers for one state
     return {"fwd": [ident(e) for e in fwd], "back": [ident(e) for e in back], "first": ident(container.first),
-            "last": ident(container.last), "links": links, "flags": flags, "len": n}
+            "last": ident(container.last), "links": links, "flags": flags, "len": n, "nested": nested}
 
 
 def apply_op(container, elems, op):
@@ -182,7 +186,8 @@ class CHECK(Check):
             fwd, back, root, head, links = r
             n = len(fwd)
             out.append({"fwd": fwd, "back": back, "first": root, "last": head, "links": links,
-                        "flags": [[l[0] == -1, l[1] == -1] for l in links], "len": n if n < case["cap"] else -1})
+                        "flags": [[l[0] == -1, l[1] == -1] for l in links], "len": n if n < case["cap"] else -1,
+                        "nested": n * n if n < case["cap"] else -1})
         return out
 
     def oracle(self, case, obs):
@@ -201,6 +206,8 @@ class CHECK(Check):
                 return "after %s: iteration differs from the reference list" % name
             if o["len"] != len(l):
                 return "after %s: len differs" % name
+            if o.get("nested", len(l) ** 2) != len(l) ** 2:
+                return "after %s: two simultaneous iterations do not each yield the whole sequence" % name
             if o["first"] != l[0]:
                 return "after %s: first is stale" % name
             if o["last"] != l[-1]:
